@@ -18,7 +18,7 @@ MANIFEST = dict(
     technique='TLA+ closed models Demux (UDP), DemuxTcp (listeners + active opens) and DemuxPassive (listener queue, handler goroutines, registration / failed-registration close by id; its early-flag variant must violate): P-spec Target = I-spec four-step lookup, TLC exhaustive; every graph transition replayed on a real stack via the sockets API and packet injection, observed traces validated by TLC against the P-spec TraceSock (TCP: reset iff no socket, final ACK for the SYN-ACK of an active open, SYN-ACK for the first SYN to a listener); registrations racing deliveries: concurrent histories validated for linearizability by TLC against TraceDemuxLin',
     text='TLC checks for every reachable population of UDP sockets (bound to wildcard/specific addresses, connected) and every inbound 4-tuple that the registry lookup returns exactly the most specific matching socket or none. Every transition of that graph is executed on a real stack: after each injected datagram every open socket is drained and TLC decides from the trace that exactly the P-spec target received exactly that payload and nobody else did. The same for TCP sockets (DemuxTcp: bind, listen, active open, close next to each other on one port; injected SYN / SYN-ACK). Seeded scenarios add TCP listeners (SYN to listener vs no socket: one RST), passive opens (SYN bursts, the completing ACK|PSH, Accept must return the connection and the connection must acknowledge data sent afterwards), TCP connections with colliding second sockets, unassigned / removed / promiscuous destination addresses and IPv6. Concurrent histories (UDP bind / connect / close lifecycles, a TCP listener lifecycle and injectors racing on one stack) are recorded as call/return events and TLC searches a linearization in which every datagram went to the most specific socket registered at that instant.',
     design='5 C09',
-    note='Constants of the exhaustive graph: 2 (quick) / 3 (thorough) sockets, 2 local addresses + wildcard, 2 ports + ephemeral, 2 remotes. DemuxTcp: 2 sockets, 1 port. Established TCP connections are only modelled as far as the demultiplexer is concerned (lingering and half-open connections are treated as "anything may answer"). The racing histories sample schedules (seeded perturbation), they do not enumerate them, and use two-step linearization points (claim/activate, find/enqueue) because the implementation is not atomic there. NIC-bound sockets and multicast are not explored. Known finding F29 (two active opens on one 4-tuple) is replayed on every run. The removed-address half is asserted only when no socket holds a route to the address.')
+    note='Constants of the exhaustive graph: 2 (quick) / 3 (thorough) sockets, 2 local addresses + wildcard, 2 ports + ephemeral, 2 remotes. DemuxTcp: 2 sockets, 1 port. Established TCP connections are only modelled as far as the demultiplexer is concerned (lingering and half-open connections are treated as "anything may answer"). The racing histories sample schedules (seeded perturbation), they do not enumerate them, and use two-step linearization points (claim/activate, find/enqueue) because the implementation is not atomic there. Interfaces: the closed model DemuxNic (2 interfaces, 2 sockets, 1 port, promiscuous mode; per-interface tables before the stack-wide one; 3 500 states) is replayed on a two-NIC host (quick: 60 paths of its edge cover, thorough: all 5 626) next to seeded two-NIC scenarios; UDP sockets bind to an interface, a TCP Bind ignores the interface id it is given (observation, DESIGN 8.9) so TCP listeners are modelled as unbound to interfaces. Subnets with prefixes that are not byte-aligned: which destinations lie inside is computed by the scenario generator (field innets), the ownership logic is that of the spec. Multicast is not explored. Known finding F29 (two active opens on one 4-tuple) is replayed on every run. The removed-address half is asserted only when no socket holds a route to the address.')
 
 SPEC = ['sock']
 NIC = dict(id=1, mtu=1500, addr4=['10.0.0.1', '10.0.0.2'], addr6=['fd00::1'])
